@@ -303,7 +303,7 @@ class C15(Property):
         vals, exc, end = [], None, 'stop'
         iu.random = stub
         try:
-            with time_limit(5):
+            with time_limit(2):
                 if case['fn'] == 'L':
                     res = iu.backoff(start, stop, count=count, factor=factor, jitter=jitter_arg)
                     if not isinstance(res, list):
@@ -385,10 +385,12 @@ class C15(Property):
         silent = count is None and Fa == U                # default count with factor 1: statement is silent
         maybe_stuck = count is None and 0 < start < TINY  # rounding may absorb the factor on subnormals
         for name, o in runs:
+            if silent:
+                continue                                  # only the shape of whatever was yielded is judged
             if o['exc']:
                 if o['vals']:
                     return Failure('raises', '%scall raised %s after %d values' % (name, o['exc'], len(o['vals'])))
-                if silent or (maybe_stuck and o['exc'] == 'ValueError'):
+                if maybe_stuck and o['exc'] == 'ValueError':
                     continue
                 return Failure('raises', '%scall with valid parameters %s raised %s' % (name, self.describe(case), o['exc']))
             if any(v.startswith('type:') for v in o['vals']):
@@ -404,8 +406,10 @@ class C15(Property):
             elif o['end'] != 'stop':
                 return Failure('length', '%sdefault count: more than %d values' % (name, MAX_VALUES))
         base = runs[-1][1]
-        if base['exc']:
+        if base['exc'] and not (silent and base['vals']):
             return None
+        if any(x.startswith('type:') for x in base['vals'] + obs['vals']):
+            return Failure('type', 'a non-number was yielded: %r' % (base['vals'][:6],))
         fv = [f(x) for x in base['vals']]
         v = [X(x) for x in fv]
         n = len(v)
@@ -436,9 +440,9 @@ class C15(Property):
                                % (n, fv[-1] if n else None, stop, self.describe(case)))
         if 'base' in obs and not obs['exc']:
             fw = [f(x) for x in obs['vals']]
-            if len(fw) != n:
+            if len(fw) != n and not silent:
                 return Failure('length', 'with jitter %d values, without %d' % (len(fw), n))
-            for i in range(n):
+            for i in range(min(n, len(fw))):
                 b = v[i]
                 e1, e2 = b * U, b * (U - J)            # b and b*(1-j)
                 lo, hi = min(e1, e2), max(e1, e2)
